@@ -154,6 +154,20 @@ class Database:
         self.n_statements = 0
         self.stmt_log = None
 
+    def save_state(self):
+        return {name: ([dict(r) for r in t.rows], t.auto_next) for name, t in self.tables.items()}
+
+    def load_state(self, state):
+        for name, t in self.tables.items():
+            rows, auto = state[name]
+            t.rows = []
+            t.uidx = [dict() for _ in t.uniques]
+            t._hidx = {}
+            t.auto_next = auto
+            for r in rows:
+                t.raw_insert(dict(r))
+        self.lock_owner = None
+
     def rand(self):
         return self.rng.random()
 
